@@ -25,7 +25,10 @@ def execute(sids):
     """
     result = []
     for sid in sids:
-        result.extend(extrapolate([sid], as_sid=True))
+        # the typed search itself is kept as it is: extrapolate() works on strings, and would give it back with the first matching type
+        # (the movie, cache... searches that share the string of the scene file search were lost)
+        result.append(sid)
+        result.extend(parent for parent in extrapolate([sid], as_sid=True) if str(parent) != str(sid))
 
     return result
 
